@@ -320,8 +320,38 @@ func compareFiles(res *core.Result, fam *family, srcRel, dstRel string, src, dst
 			declared[fd.Name.Name] = true
 		}
 	}
+	// Unexported functions declared at the same position of both files may
+	// carry a precision prefix the family table does not list yet
+	// (dgemmBlock / sgemmBlock after a helper was extracted and the generator
+	// script given a matching rule): the positional pairing itself defines
+	// the renaming, and the bodies still have to unify.
+	pairRename := map[string]string{}
+	{
+		var sf, df []*ast.FuncDecl
+		for _, d := range src.Decls {
+			if fd, ok := d.(*ast.FuncDecl); ok {
+				sf = append(sf, fd)
+			}
+		}
+		for _, d := range dst.Decls {
+			if fd, ok := d.(*ast.FuncDecl); ok {
+				df = append(df, fd)
+			}
+		}
+		if len(sf) == len(df) {
+			for i := range sf {
+				a, b := sf[i].Name.Name, df[i].Name.Name
+				if a != b && !sf[i].Name.IsExported() && !df[i].Name.IsExported() {
+					pairRename[a] = b
+				}
+			}
+		}
+	}
 	rename := func(n string) []string {
 		var out []string
+		if v, ok := pairRename[n]; ok {
+			out = append(out, v)
+		}
 		if v, ok := fam.idents[n]; ok {
 			out = append(out, v)
 			if fam.optional[n] {
@@ -336,7 +366,7 @@ func compareFiles(res *core.Result, fam *family, srcRel, dstRel string, src, dst
 		if fam.identFn != nil {
 			m = fam.identFn(m)
 		}
-		return []string{m}
+		return append(out, m)
 	}
 	lit := func(v string) []string {
 		if w, ok := fam.lits[v]; ok {
